@@ -3,6 +3,8 @@
 //   stable:   result equals std::stable_sort exactly (keys and tags)
 //   heap-owning element type: live-instance counter after the call == before
 //   flavour R: ASan/UBSan; flavour T (binary c06t): no data race.
+// Targets: mergesort (n <= 5000, threads <= 20, oversampling 1/2/10) and mergesort_scale (rarer, cost-bounded
+// scale classes: threads up to 100, n up to 10^6, oversampling 1..1000); both end in check_case().
 #include "C06_common.hpp"
 
 #include <algorithm>
@@ -33,7 +35,7 @@ uint64_t splitmix(uint64_t& s) {
 }
 
 const char* const TYPE_NAME[] = {"int", "key+tag", "heap-record"};
-const char* const VCLASS_NAME[] = {"all-equal", "2-4-distinct", "wide", "medium-dups", "sawtooth"};
+const char* const VCLASS_NAME[] = {"all-equal", "2-4-distinct", "wide", "medium-dups", "sawtooth", "blocks"};
 const char* const ARR_NAME[] = {"as-drawn", "sorted", "reversed"};
 
 std::string show_items(const std::vector<Item>& v, size_t lo = 0, size_t hi = (size_t)-1) {
@@ -47,6 +49,205 @@ std::string show_items(const std::vector<Item>& v, size_t lo = 0, size_t hi = (s
     }
     os << "]";
     return os.str();
+}
+
+} // namespace
+
+namespace {
+
+//! scale-class description of a case of the target mergesort_scale (null for the target mergesort)
+struct ScaleInfo {
+    int cls; // 0 many-threads, 1 oversampling, 2 big-n, 3 huge-n
+};
+
+//! classification, reference, tlx call and oracles for one generated case
+void check_case(int ty, const Params& p, const std::vector<Item>& in, const char* vclass_name, const char* arr_name, bool from_prng,
+                const ScaleInfo* scale) {
+    const size_t n = in.size();
+    // ---- classification -------------------------------------------------------------------
+    size_t t_eff = std::min<size_t>(p.threads, n); // tlx clamps to one element per thread
+    bool dup_across = false;
+    const bool linear = scale && n > 5000; // big inputs: O(n) classification and permutation check instead of sorting
+    if (t_eff >= 2 && linear) {
+        int kmax = 0;
+        for (const Item& it : in) kmax = std::max(kmax, it.key);
+        std::vector<int> first((size_t)kmax + 1, -1); // first slice in which the key occurs (keys are >= 0)
+        size_t chunk = n / t_eff, split = n % t_eff, pos = 0;
+        for (size_t sl = 0; sl < t_eff && !dup_across; ++sl) {
+            size_t len = chunk + (sl < split ? 1 : 0);
+            for (size_t i = 0; i < len && !dup_across; ++i) {
+                int& f = first[(size_t)in[pos + i].key];
+                if (f < 0) f = (int)sl;
+                else if (f != (int)sl) dup_across = true;
+            }
+            pos += len;
+        }
+    } else if (t_eff >= 2) {
+        // slices exactly as parallel_mergesort_base cuts them
+        std::vector<std::pair<int, int>> ks; // (key, slice)
+        ks.reserve(n);
+        size_t chunk = n / t_eff, split = n % t_eff, pos = 0;
+        for (size_t sl = 0; sl < t_eff; ++sl) {
+            size_t len = chunk + (sl < split ? 1 : 0);
+            for (size_t i = 0; i < len; ++i) ks.emplace_back(in[pos + i].key, (int)sl);
+            pos += len;
+        }
+        std::sort(ks.begin(), ks.end());
+        for (size_t i = 1; i < ks.size() && !dup_across; ++i)
+            dup_across = ks[i].first == ks[i - 1].first && ks[i].second != ks[i - 1].second;
+    }
+    pbt::label(TYPE_NAME[ty]);
+    pbt::label(p.stable ? "stable" : "unstable");
+    pbt::label(p.sampling ? "sampling" : "exact");
+    pbt::label(p.greater ? "cmp=greater" : "cmp=less");
+    if (!scale) pbt::label(p.oversampling == 1 ? "oversampling=1" : p.oversampling == 2 ? "oversampling=2" : "oversampling=10");
+    else if (p.sampling)
+        pbt::label(p.oversampling == 1 ? "oversampling=1" : p.oversampling < 10 ? "oversampling=2..9" : p.oversampling < 100 ? "oversampling=10..99"
+                                                                                                     : "oversampling=100..1000");
+    pbt::label(vclass_name);
+    pbt::label(arr_name);
+    pbt::label(from_prng ? "values:prng" : "values:bytes");
+    if (n == 0) pbt::label("n=0");
+    else if (n == 1) pbt::label("n=1");
+    if (n >= 2 && n < p.threads) pbt::label("2<=n<threads");
+    if (n >= 2 && n == p.threads) pbt::label("n==threads");
+    if (n > p.threads && n % p.threads != 0) pbt::label("n%threads!=0");
+    if (n > p.threads && n % p.threads == 0) pbt::label("n%threads==0");
+    if (n > 400) pbt::label("n>400");
+    if (p.threads == 1) pbt::label("threads=1");
+    else if (t_eff == 2) pbt::label("threads_eff=2");
+    else if (t_eff <= 4) pbt::label("threads_eff=3-4");
+    else if (t_eff >= 5) pbt::label("threads_eff>=5");
+    if (t_eff > 16) pbt::label("threads_eff>16");
+    if (scale) {
+        static const char* const CLS[] = {"scale:many-threads", "scale:oversampling", "scale:big-n", "scale:huge-n"};
+        pbt::label(CLS[scale->cls]);
+        if (t_eff > 32) pbt::label("threads_eff>32");
+        if (t_eff > 64) pbt::label("threads_eff>64");
+        if (t_eff >= 31 && t_eff <= 33) pbt::label("threads_eff=31..33");
+        if (t_eff >= 63 && t_eff <= 65) pbt::label("threads_eff=63..65");
+        if (p.threads > 20 && n >= 2 && n < p.threads) pbt::label("2<=n<threads(>20)");
+        size_t t2 = (size_t)p.threads * p.threads;
+        if (p.threads > 20 && n + 2 >= t2 && n <= t2 + p.threads + 2) pbt::label("n~threads^2(threads>20)");
+        if (n >= 10000) pbt::label("n>=10^4");
+        if (n >= 100000) pbt::label("n>=10^5");
+        if (n >= 500000) pbt::label("n>=5*10^5");
+        if (n >= 10000 && (vclass_name == VCLASS_NAME[0] || vclass_name == VCLASS_NAME[1] || vclass_name == VCLASS_NAME[4]))
+            pbt::label("n>=10^4,<=4-distinct-keys");
+        if (p.sampling && t_eff >= 2) {
+            // samples taken per thread (oversampling * threads - 1) against the length of its slice
+            size_t ns = p.oversampling * t_eff - 1, chunk = n / t_eff;
+            pbt::label(ns + 1 > chunk ? "samples/thread>slice" : ns + 1 == chunk || ns + 2 == chunk ? "samples/thread~slice" : "samples/thread<slice");
+            if (ns * t_eff >= 100000) pbt::label("samples>=10^5");
+        }
+    }
+    if (dup_across) pbt::label("dup-across-slices");
+    if (ty == 2 && n >= 2) pbt::label("lifetime-checked");
+    bool nt = t_eff >= 2 && n >= 2 * t_eff && dup_across;
+    if (nt) {
+        pbt::nontrivial();
+        pbt::label(p.stable ? (p.sampling ? "NT:stable+sampling" : "NT:stable+exact")
+                            : (p.sampling ? "NT:unstable+sampling" : "NT:unstable+exact"));
+    }
+
+    PBT_LOG("type=" << TYPE_NAME[ty] << (p.stable ? " stable_parallel_mergesort" : " parallel_mergesort") << " n=" << n
+                    << " threads=" << p.threads << " (effective " << t_eff << ") splitting=" << (p.sampling ? "sampling" : "exact")
+                    << " oversampling=" << p.oversampling << " cmp=" << (p.greater ? "greater" : "less") << " values="
+                    << vclass_name << "/" << arr_name << (from_prng ? "/prng" : "/bytes") << "\n");
+    if (pbt::verbose()) {
+        if (n <= 80) PBT_LOG("input key#tag: " << show_items(in) << "\n");
+        else PBT_LOG("input key#tag: " << show_items(in, 0, 40) << " ... " << show_items(in, n - 20, n) << "\n");
+    }
+
+    // ---- reference ------------------------------------------------------------------------
+    auto less_key = [&](const Item& a, const Item& b) { return p.greater ? b.key < a.key : a.key < b.key; };
+    std::vector<Item> ref(in);
+    std::stable_sort(ref.begin(), ref.end(), less_key);
+
+    // ---- call tlx --------------------------------------------------------------------------
+    c06::reset_globals(p);
+    std::vector<Item> out(in);
+    c06::Lifetime lt;
+    switch (ty) {
+    case 0: lt = c06::sort_int(p, out); break;
+    case 1: lt = c06::sort_kt(p, out); break;
+    default: lt = c06::sort_rec(p, out); break;
+    }
+    if (pbt::verbose()) {
+        if (n <= 80) PBT_LOG("output key#tag: " << show_items(out) << "\n");
+        if (ty == 2)
+            PBT_LOG("live instances: before=" << lt.live_before << " after=" << lt.live_after << " end=" << lt.live_end
+                                             << " constructed-by-sort=" << lt.copies << "\n");
+    }
+
+    // ---- oracles ----------------------------------------------------------------------------
+    const std::string what = std::string(p.stable ? "stable_parallel_mergesort" : "parallel_mergesort") + "<" + TYPE_NAME[ty] +
+                             "> n=" + std::to_string(n) + " threads=" + std::to_string(p.threads) +
+                             (p.sampling ? " sampling(oversampling=" + std::to_string(p.oversampling) + ")" : std::string(" exact")) +
+                             (p.greater ? " greater" : " less");
+    PBT_CHECK(out.size() == n, "C06/size", what << ": size changed");
+    // sorted
+    for (size_t i = 1; i < n; ++i)
+        PBT_CHECK(!less_key(out[i], out[i - 1]), "C06/sorted",
+                  what << ": out[" << i - 1 << "]=" << out[i - 1].key << " out[" << i << "]=" << out[i].key << " are out of order; output around: "
+                       << show_items(out, i > 4 ? i - 4 : 0, i + 4));
+    // permutation (keys; with tags where the type carries them: tags are unique, so this is exact)
+    if (linear && ty != 0) {
+        // in[t].tag == t for every t: each tag must occur exactly once and carry the key it had in the input
+        std::vector<char> seen(n, 0);
+        for (size_t i = 0; i < n; ++i) {
+            int t = out[i].tag;
+            bool ok = t >= 0 && (size_t)t < n && !seen[(size_t)t] && in[(size_t)t].key == out[i].key;
+            PBT_CHECK(ok, "C06/permutation",
+                      what << ": not a permutation of the input: position " << i << " holds " << out[i].key << "#" << t
+                           << " (key#input-index), which is " << (t < 0 || (size_t)t >= n ? "no input element"
+                                                                  : seen[(size_t)t]       ? "an element that occurs twice in the output"
+                                                                                          : "an input element with a different key"));
+            seen[(size_t)t] = 1;
+        }
+    } else {
+        std::vector<Item> a(out);
+        if (ty == 0) {
+            for (size_t i = 0; i < n; ++i)
+                PBT_CHECK(out[i].key == ref[i].key, "C06/permutation",
+                          what << ": key multiset changed: position " << i << " holds " << out[i].key << ", sorted input has " << ref[i].key);
+        } else {
+            auto total = [&](const Item& x, const Item& y) { return less_key(x, y) || (!less_key(y, x) && x.tag < y.tag); };
+            std::sort(a.begin(), a.end(), total);
+            for (size_t i = 0; i < n; ++i)
+                PBT_CHECK(a[i].key == ref[i].key && a[i].tag == ref[i].tag, "C06/permutation",
+                          what << ": not a permutation of the input: expected element " << ref[i].key << "#" << ref[i].tag
+                               << " (key#input-index) but found " << a[i].key << "#" << a[i].tag);
+        }
+    }
+    // stable: exactly std::stable_sort
+    if (p.stable && ty != 0) {
+        for (size_t i = 0; i < n; ++i)
+            PBT_CHECK(out[i].tag == ref[i].tag, "C06/stable-order",
+                      what << ": differs from std::stable_sort at position " << i << ": got " << out[i].key << "#" << out[i].tag
+                           << ", expected " << ref[i].key << "#" << ref[i].tag << " (key#input-index); output around: "
+                           << show_items(out, i > 4 ? i - 4 : 0, i + 5));
+    }
+    // every temporary destroyed
+    if (ty == 2) {
+        PBT_CHECK(lt.live_before == (long)n, "C06/harness", "live-instance counter broken: " << lt.live_before << " != " << n);
+        PBT_CHECK(lt.live_after == lt.live_before, "C06/temporaries-destroyed",
+                  what << ": " << lt.live_before << " live element instances before the call, " << lt.live_after
+                       << " after it returned (" << lt.copies << " instances were constructed by the sort, "
+                       << lt.copies - (lt.live_after - lt.live_before) << " destroyed)");
+        PBT_CHECK(lt.live_end == 0, "C06/temporaries-destroyed", what << ": " << lt.live_end << " instances still alive after the vector was destroyed");
+    }
+    // post-classification: did a slice boundary rank cut a run of equal keys? (where the partition tie rule matters)
+    if (t_eff >= 2 && !p.sampling) {
+        size_t chunk = n / t_eff, split = n % t_eff, pos = 0;
+        for (size_t sl = 0; sl + 1 < t_eff; ++sl) {
+            pos += chunk + (sl < split ? 1 : 0);
+            if (pos > 0 && pos < n && ref[pos - 1].key == ref[pos].key) {
+                pbt::label("rank-cuts-equal-run");
+                break;
+            }
+        }
+    }
 }
 
 } // namespace
@@ -112,135 +313,129 @@ PBT_PROPERTY(mergesort) {
         for (size_t i = 0; i < n; ++i) in[i].tag = (int)i; // tag = position in the input
     }
 
-    // ---- classification -------------------------------------------------------------------
-    size_t t_eff = std::min<size_t>(p.threads, n); // tlx clamps to one element per thread
-    bool dup_across = false;
-    if (t_eff >= 2) {
-        // slices exactly as parallel_mergesort_base cuts them
-        std::vector<std::pair<int, int>> ks; // (key, slice)
-        ks.reserve(n);
-        size_t chunk = n / t_eff, split = n % t_eff, pos = 0;
-        for (size_t sl = 0; sl < t_eff; ++sl) {
-            size_t len = chunk + (sl < split ? 1 : 0);
-            for (size_t i = 0; i < len; ++i) ks.emplace_back(in[pos + i].key, (int)sl);
-            pos += len;
+    check_case(ty, p, in, VCLASS_NAME[vclass], ARR_NAME[arr], from_prng, nullptr);
+}
+
+// Scale classes (own target, so that the choice-byte mapping of `mergesort` and its stored witnesses stay valid).
+// Same domain, same oracles; only the sizes differ:
+//   0 many-threads  threads 21..100 (biased to 31..33, 63..65, 100); n below the thread count, between threads and
+//                   2*threads, around threads^2 (where a slice becomes as long as the number of samples taken from it),
+//                   around multiples of the thread count, or anywhere up to 3*threads^2
+//   1 oversampling  sampling splitting with tlx::parallel_multiway_merge_oversampling drawn from 1..1000 (reset for
+//                   every case by reset_globals); threads 1..20, reduced so that threads^2 * oversampling <= 300000;
+//                   n small, or around oversampling*threads^2 (more / as many / fewer samples than slice elements)
+//   2 big-n         n = 5001..100000 (also 2^14..2^16 +-1), threads 1..20
+//   3 huge-n        n = 100001..1000000, threads 2..16, trivial element types only
+// The heap-owning record type is used up to n = 20000. Values always come from a PRNG seeded by the choice bytes;
+// value classes as in `mergesort` plus "blocks" (runs of equal keys that straddle the slice boundaries).
+PBT_PROPERTY(mergesort_scale) {
+    // ---- selectors first -------------------------------------------------------------------
+    ScaleInfo sc;
+    sc.cls = (int)src.weighted({5, 5, 5, 1});
+    int ty = (int)src.range(0, 2);
+    unsigned cfg = src.u8();
+    Params p;
+    p.stable = cfg & 1;
+    p.sampling = (cfg & 2) || sc.cls == 1;
+    p.greater = cfg & 4;
+    p.oversampling = 10;
+    size_t n = 0;
+    auto pick = [&](std::initializer_list<int> v) { return (size_t) * (v.begin() + src.index(v.size())); };
+    switch (sc.cls) {
+    case 0: {
+        switch (src.weighted({3, 3, 2, 1})) {
+        case 0: p.threads = (unsigned)src.range(21, 64); break;
+        case 1: p.threads = (unsigned)pick({33, 31, 32, 63, 64, 65}); break;
+        case 2: p.threads = (unsigned)src.range(65, 100); break;
+        default: p.threads = 100; break;
         }
-        std::sort(ks.begin(), ks.end());
-        for (size_t i = 1; i < ks.size() && !dup_across; ++i)
-            dup_across = ks[i].first == ks[i - 1].first && ks[i].second != ks[i - 1].second;
+        static const size_t OS[4] = {10, 1, 2, 3};
+        p.oversampling = OS[(cfg >> 3) & 3];
+        const int64_t t = p.threads;
+        switch (src.weighted({2, 2, 3, 3, 2})) {
+        case 0: n = (size_t)src.range(2, t - 1); break;
+        case 1: n = (size_t)src.range(t, 2 * t); break;
+        case 2: n = (size_t)(t * t - 2 + src.range(0, t + 4)); break;
+        case 3: n = (size_t)std::max<int64_t>(0, t * src.range(1, 200) + src.range(0, 2) - 1); break;
+        default: n = (size_t)src.range(t, 3 * t * t); break;
+        }
+        break;
     }
-    pbt::label(TYPE_NAME[ty]);
-    pbt::label(p.stable ? "stable" : "unstable");
-    pbt::label(p.sampling ? "sampling" : "exact");
-    pbt::label(p.greater ? "cmp=greater" : "cmp=less");
-    pbt::label(p.oversampling == 1 ? "oversampling=1" : p.oversampling == 2 ? "oversampling=2" : "oversampling=10");
-    pbt::label(VCLASS_NAME[vclass]);
-    pbt::label(ARR_NAME[arr]);
-    pbt::label(from_prng ? "values:prng" : "values:bytes");
-    if (n == 0) pbt::label("n=0");
-    else if (n == 1) pbt::label("n=1");
-    if (n >= 2 && n < p.threads) pbt::label("2<=n<threads");
-    if (n >= 2 && n == p.threads) pbt::label("n==threads");
-    if (n > p.threads && n % p.threads != 0) pbt::label("n%threads!=0");
-    if (n > p.threads && n % p.threads == 0) pbt::label("n%threads==0");
-    if (n > 400) pbt::label("n>400");
-    if (p.threads == 1) pbt::label("threads=1");
-    else if (t_eff == 2) pbt::label("threads_eff=2");
-    else if (t_eff <= 4) pbt::label("threads_eff=3-4");
-    else if (t_eff >= 5) pbt::label("threads_eff>=5");
-    if (t_eff > 16) pbt::label("threads_eff>16");
-    if (dup_across) pbt::label("dup-across-slices");
-    if (ty == 2 && n >= 2) pbt::label("lifetime-checked");
-    bool nt = t_eff >= 2 && n >= 2 * t_eff && dup_across;
-    if (nt) {
-        pbt::nontrivial();
-        pbt::label(p.stable ? (p.sampling ? "NT:stable+sampling" : "NT:stable+exact")
-                            : (p.sampling ? "NT:unstable+sampling" : "NT:unstable+exact"));
+    case 1: {
+        switch (src.weighted({2, 3, 3, 1})) {
+        case 0: p.oversampling = (size_t)src.range(1, 10); break;
+        case 1: p.oversampling = (size_t)src.range(11, 100); break;
+        case 2: p.oversampling = (size_t)src.range(101, 1000); break;
+        default: p.oversampling = pick({1000, 999, 512, 256, 255, 100}); break;
+        }
+        p.threads = (unsigned)src.range(1, 20);
+        while (p.threads > 1 && (size_t)p.threads * p.threads * p.oversampling > 300000) --p.threads;
+        const int64_t t = p.threads, ot2 = (int64_t)p.oversampling * t * t;
+        switch (src.weighted({3, 3, 4, 1})) {
+        case 0: n = (size_t)src.range(0, 400); break;
+        case 1: n = (size_t)src.range(401, 5000); break;
+        case 2:
+            if (ot2 <= 100000) n = (size_t)std::max<int64_t>(0, ot2 - t - 1 + src.range(0, 2 * t + 2));
+            else n = (size_t)std::max<int64_t>(0, (int64_t)p.oversampling * t - 1 + src.range(0, 2));
+            break;
+        default: n = (size_t)src.range(5001, 50000); break;
+        }
+        break;
     }
+    case 2: {
+        switch (src.weighted({8, 4, 4})) {
+        case 0: p.threads = (unsigned)src.range(1, 4); break;
+        case 1: p.threads = (unsigned)src.range(5, 8); break;
+        default: p.threads = (unsigned)src.range(9, 20); break;
+        }
+        static const size_t OS[4] = {10, 1, 2, 100};
+        p.oversampling = OS[(cfg >> 3) & 3];
+        switch (src.weighted({3, 2, 1})) {
+        case 0: n = (size_t)src.range(5001, 20000); break;
+        case 1: n = (size_t)src.range(20001, 100000); break;
+        default: n = (size_t)((1 << src.range(14, 16)) + src.range(0, 2) - 1); break;
+        }
+        break;
+    }
+    default: {
+        p.threads = (unsigned)src.range(2, 16);
+        static const size_t OS[4] = {10, 1, 2, 100};
+        p.oversampling = OS[(cfg >> 3) & 3];
+        n = src.weighted({3, 1}) == 0 ? (size_t)src.range(100001, 300000) : (size_t)src.range(300001, 1000000);
+        break;
+    }
+    }
+    if (ty == 2 && n > 20000) ty = 1 - (int)(cfg >> 7); // cheap element types for the big inputs
+    int vclass = (int)src.weighted({1, 3, 2, 3, 2, 2});
+    int arr = (int)src.weighted({4, 1, 1});
+    unsigned d = (unsigned)src.range(2, 4);
+    uint64_t seed = src.bits(4);
 
-    PBT_LOG("type=" << TYPE_NAME[ty] << (p.stable ? " stable_parallel_mergesort" : " parallel_mergesort") << " n=" << n
-                    << " threads=" << p.threads << " (effective " << t_eff << ") splitting=" << (p.sampling ? "sampling" : "exact")
-                    << " oversampling=" << p.oversampling << " cmp=" << (p.greater ? "greater" : "less") << " values="
-                    << VCLASS_NAME[vclass] << "/" << ARR_NAME[arr] << (from_prng ? "/prng" : "/bytes") << "\n");
-    if (pbt::verbose()) {
-        if (n <= 80) PBT_LOG("input key#tag: " << show_items(in) << "\n");
-        else PBT_LOG("input key#tag: " << show_items(in, 0, 40) << " ... " << show_items(in, n - 20, n) << "\n");
-    }
-
-    // ---- reference ------------------------------------------------------------------------
-    auto less_key = [&](const Item& a, const Item& b) { return p.greater ? b.key < a.key : a.key < b.key; };
-    std::vector<Item> ref(in);
-    std::stable_sort(ref.begin(), ref.end(), less_key);
-
-    // ---- call tlx --------------------------------------------------------------------------
-    c06::reset_globals(p);
-    std::vector<Item> out(in);
-    c06::Lifetime lt;
-    switch (ty) {
-    case 0: lt = c06::sort_int(p, out); break;
-    case 1: lt = c06::sort_kt(p, out); break;
-    default: lt = c06::sort_rec(p, out); break;
-    }
-    if (pbt::verbose()) {
-        if (n <= 80) PBT_LOG("output key#tag: " << show_items(out) << "\n");
-        if (ty == 2)
-            PBT_LOG("live instances: before=" << lt.live_before << " after=" << lt.live_after << " end=" << lt.live_end
-                                             << " constructed-by-sort=" << lt.copies << "\n");
-    }
-
-    // ---- oracles ----------------------------------------------------------------------------
-    const std::string what = std::string(p.stable ? "stable_parallel_mergesort" : "parallel_mergesort") + "<" + TYPE_NAME[ty] +
-                             "> n=" + std::to_string(n) + " threads=" + std::to_string(p.threads) +
-                             (p.sampling ? " sampling(oversampling=" + std::to_string(p.oversampling) + ")" : std::string(" exact")) +
-                             (p.greater ? " greater" : " less");
-    PBT_CHECK(out.size() == n, "C06/size", what << ": size changed");
-    // sorted
-    for (size_t i = 1; i < n; ++i)
-        PBT_CHECK(!less_key(out[i], out[i - 1]), "C06/sorted",
-                  what << ": out[" << i - 1 << "]=" << out[i - 1].key << " out[" << i << "]=" << out[i].key << " are out of order; output around: "
-                       << show_items(out, i > 4 ? i - 4 : 0, i + 4));
-    // permutation (keys; with tags where the type carries them: tags are unique, so this is exact)
+    // ---- input ------------------------------------------------------------------------------
+    std::vector<Item> in(n);
     {
-        std::vector<Item> a(out);
-        if (ty == 0) {
-            for (size_t i = 0; i < n; ++i)
-                PBT_CHECK(out[i].key == ref[i].key, "C06/permutation",
-                          what << ": key multiset changed: position " << i << " holds " << out[i].key << ", sorted input has " << ref[i].key);
-        } else {
-            auto total = [&](const Item& x, const Item& y) { return less_key(x, y) || (!less_key(y, x) && x.tag < y.tag); };
-            std::sort(a.begin(), a.end(), total);
-            for (size_t i = 0; i < n; ++i)
-                PBT_CHECK(a[i].key == ref[i].key && a[i].tag == ref[i].tag, "C06/permutation",
-                          what << ": not a permutation of the input: expected element " << ref[i].key << "#" << ref[i].tag
-                               << " (key#input-index) but found " << a[i].key << "#" << a[i].tag);
-        }
-    }
-    // stable: exactly std::stable_sort
-    if (p.stable && ty != 0) {
-        for (size_t i = 0; i < n; ++i)
-            PBT_CHECK(out[i].tag == ref[i].tag, "C06/stable-order",
-                      what << ": differs from std::stable_sort at position " << i << ": got " << out[i].key << "#" << out[i].tag
-                           << ", expected " << ref[i].key << "#" << ref[i].tag << " (key#input-index); output around: "
-                           << show_items(out, i > 4 ? i - 4 : 0, i + 5));
-    }
-    // every temporary destroyed
-    if (ty == 2) {
-        PBT_CHECK(lt.live_before == (long)n, "C06/harness", "live-instance counter broken: " << lt.live_before << " != " << n);
-        PBT_CHECK(lt.live_after == lt.live_before, "C06/temporaries-destroyed",
-                  what << ": " << lt.live_before << " live element instances before the call, " << lt.live_after
-                       << " after it returned (" << lt.copies << " instances were constructed by the sort, "
-                       << lt.copies - (lt.live_after - lt.live_before) << " destroyed)");
-        PBT_CHECK(lt.live_end == 0, "C06/temporaries-destroyed", what << ": " << lt.live_end << " instances still alive after the vector was destroyed");
-    }
-    // post-classification: did a slice boundary rank cut a run of equal keys? (where the partition tie rule matters)
-    if (t_eff >= 2 && !p.sampling) {
-        size_t chunk = n / t_eff, split = n % t_eff, pos = 0;
-        for (size_t sl = 0; sl + 1 < t_eff; ++sl) {
-            pos += chunk + (sl < split ? 1 : 0);
-            if (pos > 0 && pos < n && ref[pos - 1].key == ref[pos].key) {
-                pbt::label("rank-cuts-equal-run");
-                break;
+        uint64_t s = seed * 0x9E3779B97F4A7C15ull + 999;
+        size_t t_eff = std::max<size_t>(1, std::min<size_t>(p.threads, n));
+        size_t block = n / (3 * t_eff) + 1 + (size_t)(splitmix(s) % 5); // "blocks": about 3 runs per slice, not aligned to the slices
+        for (size_t i = 0; i < n; ++i) {
+            int k = 0;
+            switch (vclass) {
+            case 0: k = 7; break;
+            case 1: k = (int)((splitmix(s) >> 20) % d); break;
+            case 2: k = (int)((splitmix(s) >> 20) % 1000000u); break;
+            case 3: k = (int)((splitmix(s) >> 20) % (uint64_t)(n / 2 + 1)); break;
+            case 4: k = (int)(i % d); break;
+            default: k = (int)((i / block) % (d + 3)); break;
             }
+            in[i] = Item{k, (int)i};
         }
+        auto asc = [](const Item& a, const Item& b) { return a.key < b.key; };
+        if (arr == 1) std::stable_sort(in.begin(), in.end(), asc);
+        if (arr == 2) {
+            std::stable_sort(in.begin(), in.end(), asc);
+            std::reverse(in.begin(), in.end());
+        }
+        for (size_t i = 0; i < n; ++i) in[i].tag = (int)i;
     }
+    check_case(ty, p, in, VCLASS_NAME[vclass], ARR_NAME[arr], true, &sc);
 }
